@@ -154,6 +154,8 @@ class Executor:
         if isinstance(v, VUnion):
             return simp(disj([z3.And(g, self.truthy(state, a)) for g, a in v.alts]))
         if isinstance(v, VOpaque):
+            if v.tag.startswith("matchobj"):
+                return z3.BoolVal(True)         # re match objects are always truthy
             return z3.Bool(fresh_name("truthy_" + v.tag))
         raise Unsupported("truthy of %r" % (v,))
 
@@ -1002,6 +1004,10 @@ class Executor:
             return VFunc("builtin", "bytes." + attr, self_val=a)
         if isinstance(a, VListView):
             return VFunc("builtin", "listview." + attr, self_val=a)
+        if isinstance(a, VRegex):
+            if attr == "pattern":
+                return VStr(a.compiled.pattern)
+            return VFunc("builtin", "regex." + attr, self_val=a)
         if isinstance(a, VNoneT):
             self.raise_if(state, z3.BoolVal(True), "AttributeError")
         if isinstance(a, VOpaque):
